@@ -1133,6 +1133,10 @@ class Engine:
                 if spec is not None and getattr(spec, 'on_call', None):
                     return spec.on_call(self, f, args, kwargs, node)
                 return VCoro(f, args, kwargs)
+            if _is_generator(f.node) and f.qualname not in self.specs and self.cur_func != f.qualname:
+                # calling a generator / async generator function runs nothing: a lazy generator object
+                return Obj('AsyncGenCall' if isinstance(f.node, ast.AsyncFunctionDef) else 'GenCall',
+                           dict(func=f.qualname, args=list(args), kwargs=dict(kwargs), fobj=f))
             return self.invoke(f, args, kwargs, node)
         if isinstance(f, VClass):
             if f.ctor is not None:
